@@ -11,8 +11,11 @@ C09WRAPS = ["longjmp"]
 SRC = ["h/h_c09.c", "env/net.c", "wrap/w_backend_nl.c", "wrap/w_errctx_nl.c", "wrap/w_call_out_nl.c"]
 
 def build(ck):
-    return {"h_c09": ck.harness("h_c09", SRC, replace_stem=["backend.c", "error_context.c"],
-                                wraps=vlib.STD_WRAPS + NETWRAPS + C09WRAPS)}
+    kw = dict(replace_stem=["backend.c", "error_context.c"], wraps=vlib.STD_WRAPS + NETWRAPS + C09WRAPS)
+    # the same harness without sanitizer instrumentation: the explorer's (serial) fork() of an ASan process is the
+    # bottleneck, the plain build explores ~5x more histories per second; it sees crashes and every oracle of the
+    # harness, but not silent use-after-free
+    return {"h_c09": ck.harness("h_c09", SRC, **kw), "h_c09_plain": ck.harness("h_c09_plain", SRC, profile="plain", **kw)}
 
 RULE = ("every pair (plan, history) is executed on the real backend()/comm.c/error_context.c/call_out.c. "
         "plan = {no fault} + {task kind that raises an uncaught error() in {connect (user object's create under master "
@@ -42,17 +45,21 @@ ASSUME = ["one external event per wait (plus level-triggered write readiness); t
           "timer callbacks arrive between cycles (the timer thread itself is C19's subject)"]
 
 def parts(tier):
+    """(tag, harness, args, deadline_s)"""
     core = ["--handlers=1", "--nths=1"]
     if tier == "quick":
-        return [("d3-all", ["--depth=3", "--maxconn=2"], 85), ("d4-core", ["--depth=4", "--maxconn=2"] + core, 100)]
-    return [("d4-all", ["--depth=4", "--maxconn=2"], 1200), ("d5-core", ["--depth=5", "--maxconn=2"] + core, 900)]
+        return [("d3-all-asan", "h_c09", ["--depth=3", "--maxconn=2"], 95),
+                ("d4-core-plain", "h_c09_plain", ["--depth=4", "--maxconn=2"] + core, 95)]
+    return [("d4-all-asan", "h_c09", ["--depth=4", "--maxconn=2"], 1250),
+            ("d5-core-plain", "h_c09_plain", ["--depth=5", "--maxconn=2"] + core, 850)]
 
 def run(ck):
-    exe = build(ck)["h_c09"]
-    for tag, args, dl in parts(ck.tier):
-        ck.explore(exe, args, tag, budget=0, deadline_s=dl, timeout_ms=30000)
+    exes = build(ck)
+    for tag, h, args, dl in parts(ck.tier):
+        ck.explore(exes[h], args, tag, budget=0, deadline_s=dl, timeout_ms=30000)
     cov = vlib.mc_coverage(ck.parts, RULE, extra={
         "plans": "286 (143 per mode: 1 without fault + 128 fault plans + 14 hostile operations); 'core' parts use error_handler=logs, 1st execution only (94 plans)",
+        "profiles": "parts tagged -asan run the ASan+UBSan build (memory errors of any kind are findings); parts tagged -plain run the same harness uninstrumented (crashes, exits, hangs and all harness oracles, no silent memory errors)",
         "depth_per_part": {p["part"]: p["args"] for p in ck.parts},
         "histories_completed": sum(p.get("counters", {}).get("histories_completed", 0) for p in ck.parts),
         "errors_injected": sum(p.get("counters", {}).get("errors_injected", 0) for p in ck.parts)})
@@ -68,8 +75,9 @@ def selftest(ck):
         # network mode, error_handler logs; connect first so that the known tick-before-connection crash is not in the way
         args = ["--depth=2", "--modes=1", "--handlers=1", "--nths=1", "--everys=1", "--hostile=0", "--selftest=%d" % st]
         ck2.explore(exe, args, "selftest%d" % st, budget=0, jobs=8)
-        if key not in ck2.fails:
+        hit = [k for k in ck2.fails if k.startswith(key)]
+        if not hit:
             print("SELFTEST-FAILED C09 variant %d did not raise %s (got %s)" % (st, key, sorted(ck2.fails)[:6])); bad = 1
         else:
-            print("selftest %d ok: %s x%d" % (st, key, ck2.fails[key].get("count", 1)))
+            print("selftest %d ok: %s x%d" % (st, hit[0], sum(ck2.fails[k].get("count", 1) for k in hit)))
     return bad
